@@ -727,8 +727,9 @@ func checkAndPropagateArgsForUnionWithReturnT(
 			return nil, err
 		}
 
+		// methodTs are the shared entries of the method table: accumulate into copies
 		if returnT == nil {
-			returnT = methodTs[idx]
+			returnT = methodTs[idx].DeepCopy()
 
 			continue
 		}
@@ -740,9 +741,10 @@ func checkAndPropagateArgsForUnionWithReturnT(
 		}
 
 		if methodTs[idx].IsUnionType() {
-			methodTs[idx].AppendVariant(*returnT)
+			unionT := methodTs[idx].DeepCopy()
+			unionT.AppendVariant(*returnT)
 
-			returnT = base.MakeUnion(methodTs[idx].GetVariants())
+			returnT = base.MakeUnion(unionT.GetVariants())
 
 			continue
 		}
